@@ -105,7 +105,7 @@ class C13(Sim):
         arm = ["clean", "clean", "faults", "crash"][run % 4]
         general_only = rng.random() < 0.5
         sp = S.gen_spec(rng, activations=["General"] if general_only else S.ACTIVATIONS, fn_reads_output=rng.random() < 0.3,
-                        cascade=rng.random() < 0.5)
+                        cascade=rng.random() < 0.5, norm_functions=True)
         if rng.random() < 0.5:  # the property's hard cases: make sure a Linear / Function term exists
             o = rng.choice(sp["outputs"])
             if o["family"] == "takagi":
@@ -263,6 +263,8 @@ class C13(Sim):
             out.digest, out.log = dig.hex(), log
             return out
         live = [Live(e0, s0, copy.deepcopy(sp), copy.deepcopy(sp), [], 0)]
+        for _cls in S.classes_of(sp):
+            st.hit("classes." + _cls)
         live[0].cached = EO.snapshot(e0)
         if sp.get("flags", {}).get("example"):
             st.hit("probes.shipped_example_engine")
